@@ -53,6 +53,8 @@ def _sequence(b, F=None, depth=0, members=frozenset(), keep=frozenset()):
             n = callee(t)[2]
             if n in PLUMBING:
                 continue
+            if str(callee(t)[0]).endswith(("WeightFunctionInfo::<T>::add", "WeightFunctionInfo::<T>::extend")):
+                continue          # registration of weight functions (`extend` is a loop over `add`): the layout is R64's business
             cb = F.callee_body(t) if F is not None and depth < 2 else None
             if cb is not None and not cb.is_closure() and cb.get("vis") != "Public" and len(cb.blocks) <= 400 \
                     and cb.path.split("::")[0] == b.path.split("::")[0] and cb.path not in members and cb.path != b.path and n not in keep:
